@@ -625,6 +625,13 @@ def check_C17():
     tlc_must_pass(fem, "ExtractFS.tla emitter (file roots)")
     rc2, rep2 = harness_run(vh, ["extract-replay", fem["out"], "@REPORT", car], timeout=3400)
     absorb(rep2, "file_root")
+    # directory entries named a/x and a/x/y (one and two levels below what may be a symlink): focused configuration
+    dmodel = run_tlc("MCExtractFS", "ExtractFS_deep_guardTRUE.cfg", timeout=1800)
+    tlc_must_pass(dmodel, "ExtractFS.tla invariant Contained with deep directory names")
+    dem = run_tlc("MCExtractFS", "ExtractFS_deep_emit.cfg", timeout=2400)
+    tlc_must_pass(dem, "ExtractFS.tla emitter (deep directory names)")
+    rc4, rep4 = harness_run(vh, ["extract-replay", dem["out"], "@REPORT", car, "hamt=all"], timeout=3400)
+    absorb(rep4, "deep_dirname")
     rep["counters"]["file_root_states"] = fmodel["distinct"]
     cov = merge_cov(model, em, rep, {
         "file_roots": "archives of <= 3 top-level items over {file root (extracted as <out>/unknown), file/symlink/directory named 'unknown' or 'a'} x output directory {empty, 'unknown' a symlink "
